@@ -2590,6 +2590,23 @@ class StmtMixin(object):
             val = self.mk_ite(M, c, va, vb)
         return M, val
 
+    def join_listlike(self, M, c, x, y):
+        """One list on one path, another on the other (a constant table / a fresh list): a guarded
+        list whose elements are present under the path's condition.  None when not both are lists."""
+        def items_of(v):
+            if isinstance(v, Const) and isinstance(v.v, (list,)):
+                from .interp_expr import wrap_const
+
+                return [(TRUE, wrap_const(e)) for e in v.v]
+            if isinstance(v, Ref) and v.id in M.heap and M.heap[v.id].kind == "list" and not getattr(M.heap[v.id], "one_shot", False):
+                return list(M.heap[v.id].items)
+            return None
+
+        ix, iy = items_of(x), items_of(y)
+        if ix is None or iy is None:
+            return None
+        return self.alloc(M, ListObj([(mk_and([c, g]), e) for g, e in ix] + [(mk_and([mk_not(c), g]), e) for g, e in iy]))
+
     def merge_obj(self, M, c, a, b):
         if a.kind != b.kind:
             raise AnalysisError("E5.join", "heap object changed kind")
@@ -2608,7 +2625,8 @@ class StmtMixin(object):
                     try:
                         o.vars[k] = self.mk_ite(M, c, a.vars[k], b.vars[k])
                     except AnalysisError:
-                        o.vars[k] = Opaque("unjoinable:" + k)
+                        lj = self.join_listlike(M, c, a.vars[k], b.vars[k])
+                        o.vars[k] = lj if lj is not None else Opaque("unjoinable:" + k)
                 elif getattr(self, "split_unjoinable", False) and not k.startswith("__"):
                     # bound on one path only: in path-splitting mode the paths stay apart (a read on
                     # the other path is an UnboundLocalError, not the first path's value)
